@@ -105,3 +105,24 @@ pub fn roundtrip(args: &[String]) -> i32 {
     }
     0
 }
+
+/// `a2lsim rtfile <path> [cycles]`: load a real file (with includes), write it next to it as <path>.out<i>, reload; print each written text
+pub fn roundtrip_file(args: &[String]) -> i32 {
+    let k: usize = args.get(1).and_then(|s| s.parse().ok()).unwrap_or(3);
+    let mut cur = args[0].clone();
+    for i in 0..k {
+        match a2lfile::load(&cur, None, false) {
+            Ok((f, msgs)) => {
+                let out = format!("{}.out{}", args[0], i + 1);
+                f.write(&out, None).expect("write");
+                println!("---- {out} ({} diagnostics) ----\n{}", msgs.len(), std::fs::read_to_string(&out).unwrap());
+                cur = out;
+            }
+            Err(e) => {
+                println!("---- load of {cur} failed: {e}");
+                return 1;
+            }
+        }
+    }
+    0
+}
